@@ -60,9 +60,13 @@ def run(ctx):
     fn = h.fn(FN)
     n = 0
     for gname, (order, de, ue, outside) in GRAPHS.items():
-        for use_rfunc, use_sort in itertools.product((False, True, "same-label"), (False, True)):
+        for use_rfunc, use_sort in itertools.product((False, True, "same-label", "str-only-class"), (False, True, "cached-twice")):
             h.reset()
-            V = {v: h.new("Vertex", v) for v in list(order) + list(outside)}
+            vcls = "Vertex"
+            label_rfunc = use_rfunc
+            if use_rfunc == "str-only-class":
+                vcls, use_rfunc = "StrVert", False   # repr() is specified, not str()
+            V = {v: h.new(vcls, v) for v in list(order) + list(outside)}
             for p, q in de:
                 h.new("DirectedEdge", f"d_{p}{q}", V[p], V[q])
             for p, q in ue:
@@ -71,7 +75,19 @@ def run(ctx):
             h.settle()
             lab = (lambda n: SAME_LABEL[n] if n in SAME_LABEL and SAME_LABEL[n] in V else n) if use_rfunc == "same-label" else (lambda n: n)
             rfunc = Callback("rfunc", lambda I, k, a, kw: mkstr([SAtom("R", V[lab(a[0].name)])])) if use_rfunc else None
-            sort = Callback("sort", lambda I, k, a, kw: SORTKEY[a[0].name]) if use_sort else None
+            keys = dict(SORTKEY)
+            sort = Callback("sort", lambda I, k, a, kw: keys[a[0].name]) if use_sort else None
+            if use_sort == "cached-twice":
+                # caching on; a first render under one key order, then the keys change (the attribute the key reads was edited) and the
+                # same callable is used again: the second render must follow the new keys
+                h.fn("edgegraph.structure.vertex.Vertex").dict["NEIGHBOR_CACHING"] = True
+                try:
+                    h.call(fn, uni, rfunc, sort)
+                except Unknown:
+                    pass
+                for k_ in keys:
+                    keys[k_] = -keys[k_] if k_ not in ("b", "c") else keys[k_]
+                keys["b"], keys["c"] = 1, 0
             R = (lambda v: SAtom("R", V[lab(v)])) if use_rfunc else (lambda v: SAtom("Repr", V[v]))
             try:
                 out = h.call(fn, uni, rfunc, sort)
@@ -80,7 +96,7 @@ def run(ctx):
                 res.undecide(f"{FN} on {gname} rfunc={use_rfunc} sort={use_sort}: {u}")
                 continue
             n += 1
-            vorder = sorted(order, key=SORTKEY.get) if use_sort else list(order)
+            vorder = sorted(order, key=keys.get) if use_sort else list(order)
             why = None
             if not order:
                 if not (out.kind == "return" and out.value is None):
@@ -95,7 +111,7 @@ def run(ctx):
                     for v, line in zip(vorder, got_lines):
                         nbs = forward(order, de, ue, v)
                         if use_sort:
-                            nbs = sorted(nbs, key=SORTKEY.get)
+                            nbs = sorted(nbs, key=keys.get)
                         parts = [R(v), " -> "]
                         for i, w in enumerate(nbs):
                             if i:
@@ -111,12 +127,12 @@ def run(ctx):
                             why = f"line for {v}: derived {SymStr(line)!r}, specified {want!r}"
                             break
             zero = any(not forward(order, de, ue, v) for v in order)
-            res.ob(why is None, sig=(gname, use_rfunc, use_sort), sample={"graph": gname, "rfunc": use_rfunc, "sort": use_sort, "derived": repr(out.value) if out.kind == "return" else repr(out)})
+            res.ob(why is None, sig=(gname, label_rfunc, use_sort), sample={"graph": gname, "rfunc": use_rfunc, "sort": use_sort, "derived": repr(out.value) if out.kind == "return" else repr(out)})
             if why:
                 res.violation("LINE", FN, f"rfunc={use_rfunc},sort={use_sort},zero-neighbour-vertex={zero and 'line for' in why and not forward(order, de, ue, why.split()[2].rstrip(':'))}",
                               f"graph {gname} (universe order {order}, directed {de}, undirected {ue}): {why}", replay=replay(gname, use_rfunc, use_sort))
     res.rule("LINE", n)
-    common.vacuity(res, "LINE", 55)
+    common.vacuity(res, "LINE", 100)
     res.analysed = common.analysed(ctx, [FN])
     res.explanation = ("The derived symbolic output equals the specified template for 0, 1, 2 and 3 neighbours; the accumulation loop treats every neighbour alike "
                        "(same separator, same rendering call), so the template extends to any number.")
